@@ -1,5 +1,6 @@
 import OjgVerif.Sen.Lemmas
 import OjgVerif.Props.C03
+import OjgVerif.Gen.SenFacts
 /-! # C03 (SEN clause) — sen.Parse, sen.ParseReader and sen.Tokenize, however the input is chunked
 (model level)
 
@@ -17,7 +18,15 @@ delivers `chunks`.
   statement is false; the witnesses are in corpus/C03sen.txt and are replayed against the Go code on
   every run (known findings C03sen-token-end-chunk, C03sen-int19);
 * `chunk_dependence_newline_before` / `_current`: the third deviation, `nlSkip`, was repaired by 7b94de8
-  (the flag is off in the code as it is). -/
+  (the flag is off in the code as it is);
+* `missing_value_before` / `_current` (546d576), `tokenizer_quote_before` / `_current`,
+  `tokenizer_ccomment_before` / `_current`, `tokenizer_comment_onlyone_before` / `_current` (f233b47): the
+  witnesses of the repaired front-end differences, on the old model (flags `missingValue`, `tkOld`) and on
+  the model of the code as it is;
+* `repairs_in_source`: regenerated facts of sen/parser.go and sen/tokenizer.go that pin those repairs
+  (no `spaceMap[…]` in the scan loops, the "expected a value" error in both `closeObject` cases, the
+  tokenizer's `strQuote` case reads `quoteDelim`, its `commentEnd` and C-comment cases `continue`) —
+  undoing one of the commits breaks this theorem (and the correspondence run). -/
 namespace OjgVerif.C03sen
 open OjgVerif OjgVerif.Sen
 open OjgVerif.Json (topUp topUpAux bomRuleReader BomRes)
@@ -331,6 +340,68 @@ theorem chunk_dependence_newline_before :
 theorem chunk_dependence_newline_current :
     accepts (run refTables { reader := true } [[123, 97, 10], [44, 58, 49, 125]]) =
     accepts (run refTables { reader := true } [[123, 97, 10, 44, 58, 49, 125]]) := by
+  decide +kernel
+
+/-! ## repaired front-end differences: the old witnesses, before and now -/
+
+/-- BEFORE 546d576 `{a:}` was accepted by both front-ends (finding C03sen-missing-value) -/
+theorem missing_value_before :
+    accepts (run refTables { missingValue := true } [[123, 97, 58, 125]]) = true ∧
+    accepts (run refTables { tokenizer := true, missingValue := true } [[123, 97, 58, 125]]) = true := by
+  decide +kernel
+
+/-- now it is "expected a value" for both -/
+theorem missing_value_current :
+    (match run refTables {} [[123, 97, 58, 125]] with | .error e => e.kind == .expectedValue | .ok _ => false) = true ∧
+    (match run refTables { tokenizer := true } [[123, 97, 58, 125]] with
+      | .error e => e.kind == .expectedValue | .ok _ => false) = true := by
+  decide +kernel
+
+/-- BEFORE f233b47 `['a"b']` was a broken stream for the tokenizer (finding C03sen-tokenizer-quote) -/
+theorem tokenizer_quote_before :
+    accepts (run refTables { tokenizer := true, tkOld := true } [[91, 39, 97, 34, 98, 39, 93]]) = false := by
+  decide +kernel
+
+/-- now the tokenizer reports the one string the parser builds -/
+theorem tokenizer_quote_current :
+    (match run refTables { tokenizer := true } [[91, 39, 97, 34, 98, 39, 93]] with
+      | .ok o => (match o.evs with
+        | [.arrStart, .val v, .arrEnd] => v.render == (JV.str [97, 34, 98]).render | _ => false)
+      | .error _ => false) = true ∧
+    (match run refTables {} [[91, 39, 97, 34, 98, 39, 93]] with
+      | .ok o => o.docs.map JV.render == [(JV.arr [.str [97, 34, 98]]).render] | .error _ => false) = true := by
+  decide +kernel
+
+/-- BEFORE f233b47 `/* c */ 1` was an error for the tokenizer (finding C03sen-tokenizer-ccomment) -/
+theorem tokenizer_ccomment_before :
+    accepts (run refTables { tokenizer := true, tkOld := true } [[47, 42, 32, 99, 32, 42, 47, 32, 49]]) = false := by
+  decide +kernel
+
+theorem tokenizer_ccomment_current :
+    (match run refTables { tokenizer := true } [[47, 42, 32, 99, 32, 42, 47, 32, 49]] with
+      | .ok o => (match o.evs with | [.val v] => v.render == (JV.int 1).render | _ => false)
+      | .error _ => false) = true := by
+  decide +kernel
+
+/-- BEFORE f233b47 `//c\n1` with OnlyOne was an error for the tokenizer (finding
+C03sen-tokenizer-comment-onlyone) -/
+theorem tokenizer_comment_onlyone_before :
+    accepts (run refTables { tokenizer := true, onlyOne := true, tkOld := true } [[47, 47, 99, 10, 49]]) = false := by
+  decide +kernel
+
+theorem tokenizer_comment_onlyone_current :
+    (match run refTables { tokenizer := true, onlyOne := true } [[47, 47, 99, 10, 49]] with
+      | .ok o => (match o.evs with | [.val v] => v.render == (JV.int 1).render | _ => false)
+      | .error _ => false) = true := by
+  decide +kernel
+
+/-- the regenerated source facts that pin 7b94de8, 546d576 and f233b47 -/
+theorem repairs_in_source :
+    Gen.SenFacts.parserSpaceMapIndexed = 0 ∧ Gen.SenFacts.tokenizerSpaceMapIndexed = 0 ∧
+    Gen.SenFacts.parserCloseObjectMsgs.contains "expected a value" = true ∧
+    Gen.SenFacts.tokenizerCloseObjectMsgs.contains "expected a value" = true ∧
+    Gen.SenFacts.tokenizerStrQuoteFields.contains "quoteDelim" = true ∧
+    (["commentEnd", "cskipChar", "cskipNewline"].all fun c => Gen.SenFacts.tokenizerContinueCases.contains c) = true := by
   decide +kernel
 
 /-- `[9223372036854775800.E2]`: the integer fast loop goes over to text, after which `.E` is an
